@@ -258,6 +258,9 @@ class ExecutionState:
         # CONTEXT operations completed during this invocation
         self._completed_contexts: set[str] = set()
 
+        # child operation id -> parent id, as seen in the checkpoints of this invocation
+        self._parent_of: dict[str, str] = {}
+
         # Protects parent_to_children and parent_done
         self._parent_done_lock: Lock = Lock()
         self._replay_status: ReplayStatus = replay_status
@@ -472,12 +475,12 @@ class ExecutionState:
                     self._parent_to_children[operation_update.parent_id].add(
                         operation_update.operation_id
                     )
-                    # An operation first seen after its parent completed (or was orphaned) is an
-                    # orphan as well, even though it was not registered when the parent completed
-                    if (
-                        operation_update.parent_id in self._parent_done
-                        or operation_update.parent_id in self._completed_contexts
-                    ):
+                    self._parent_of[operation_update.operation_id] = (
+                        operation_update.parent_id
+                    )
+                    # An operation first seen after an ancestor completed (or was orphaned) is an
+                    # orphan as well, even though it was not registered when the ancestor completed
+                    if self._has_completed_ancestor(operation_update.parent_id):
                         self._parent_done.add(operation_update.operation_id)
 
                 # Check if this operation's parent is done
@@ -564,6 +567,28 @@ class ExecutionState:
             self.stop_checkpointing()
             # Raise the original exception unwrapped
             raise bg_error.source_exception from bg_error
+
+    def _has_completed_ancestor(self, parent_id: str | None) -> bool:
+        """True if the given parent or one of its ancestors completed in this invocation or is an orphan.
+
+        Ancestry is taken from the checkpoints seen in this invocation and, for contexts that were
+        started by an earlier invocation (they send no START on replay and so were never registered
+        under their parent here), from the operations loaded from the history.
+
+        Must be called while holding _parent_done_lock.
+        """
+        seen: set[str] = set()
+        while parent_id and parent_id not in seen:
+            seen.add(parent_id)
+            if parent_id in self._completed_contexts or parent_id in self._parent_done:
+                return True
+            next_parent = self._parent_of.get(parent_id)
+            if next_parent is None:
+                with self._operations_lock:
+                    known = self.operations.get(parent_id)
+                next_parent = known.parent_id if known else None
+            parent_id = next_parent
+        return False
 
     def _mark_orphans(self, context_id: str) -> None:
         """Mark all descendants (direct and transitive) as orphaned.
